@@ -1,13 +1,14 @@
 use crate::util::{chunks, hex};
-use findutils::xargs::verif::read_args;
+use findutils::xargs::verif::{read_args, read_lines};
 
 pub fn handle(words: &[&str]) -> String {
-    let (delim, cs) = match words {
-        ["ws", cs] => (None, chunks(cs)),
-        ["bd", d, cs] => (Some(d.parse::<u8>().unwrap()), chunks(cs)),
+    let result = match words {
+        ["ws", cs] => read_args(None, chunks(cs)),
+        ["wl", cs] => read_lines(chunks(cs)),
+        ["bd", d, cs] => read_args(Some(d.parse::<u8>().unwrap()), chunks(cs)),
         _ => return "badcase".to_string(),
     };
-    match read_args(delim, cs) {
+    match result {
         Err(_) => "err".to_string(),
         Ok(v) => {
             let mut s = String::from("ok");
